@@ -700,6 +700,17 @@ expr_stmt:
 	{
 		target := $1
 		setCtx(yylex, target, ast.Store)
+		// setCtx accepts everything a plain assignment can have on
+		// the left, but an augmented assignment can only have a name,
+		// an attribute or a subscript there (not a tuple, list or
+		// starred expression)
+		switch target.(type) {
+		case *ast.Name, *ast.Attribute, *ast.Subscript:
+		default:
+			if !yylex.(*yyLex).error {
+				yylex.(*yyLex).SyntaxError("illegal expression for augmented assignment")
+			}
+		}
 		$$ = &ast.AugAssign{StmtBase: ast.StmtBase{Pos: $<pos>$}, Target: target, Op: $2, Value: $3}
 	}
 |	testlist_star_expr equals_yield_expr_or_testlist_star_expr
